@@ -391,10 +391,10 @@ def gen_table(rng, big=False):
             nll = round(rng.uniform(0, 20), rng.choice([0, 1, 3]))
         if nll == nll and nll != float('inf'):
             prev_nll.append(nll)
-        cl = rng.choice([0.0, 0.5, 1.0, 2.0, float('inf'), float('nan'), round(rng.uniform(-2, 6), 2)])
+        cl = rng.choice([0.0, -0.0, 0.5, 1.0, 2.0, 3.0, float('inf'), float('nan'), round(rng.uniform(-2, 6), 2)])
         if big and rng.random() < 0.97:
             cl = rng.choice([0.0, 0.5, 1.0, 2.0, round(rng.uniform(-1, 2), 2)])      # (almost) everything finite: > 1000 ranked rows
-        rows.append([nll, cl, float(idx[i])] + [rng.choice([0.0, round(rng.uniform(-3, 3), 4)]) for _ in range(npar)])
+        rows.append([nll, cl, float(idx[i])] + [rng.choice([0.0, -0.0, 1.0, round(rng.uniform(-3, 3), 4)]) for _ in range(npar)])
     aif = [rng.choice([1.0986123, 2.1972246, 3.2958369, 5.4930614, 2.0]) for _ in range(N)]
     return dict(U=U, N=N, rows=rows, aif=aif, idx=idx)
 
